@@ -26,3 +26,23 @@ structure FieldFns (K : Type) where
   eps := F.eps
   minPos := F.minPos
   cabs z := F.sqrt (z.1 * z.1 + z.2 * z.2)
+
+namespace ScF
+variable {K : Type} [Field K] [LinearOrder K] [IsStrictOrderedRing K] (F : FieldFns K)
+
+@[simp] theorem ofInt (i : Int) : @Sc.ofInt K (scOfField F) i = (i : K) := rfl
+@[simp] theorem abs (x : K) : @Sc.abs K (scOfField F) x = |x| := rfl
+@[simp] theorem sqrt (x : K) : @Sc.sqrt K (scOfField F) x = F.sqrt x := rfl
+@[simp] theorem pow (x y : K) : @Sc.pow K (scOfField F) x y = F.pow x y := rfl
+@[simp] theorem lit (m : Nat) (e : Int) : @Sc.lit K (scOfField F) m e = (m : K) * (10 : K) ^ e := rfl
+@[simp] theorem lt (a b : K) : @Sc.lt K (scOfField F) a b = decide (a < b) := rfl
+@[simp] theorem le (a b : K) : @Sc.le K (scOfField F) a b = decide (a ≤ b) := rfl
+@[simp] theorem eq (a b : K) : @Sc.eq K (scOfField F) a b = decide (a = b) := rfl
+@[simp] theorem gt (a b : K) : @Sc.gt K (scOfField F) a b = decide (b < a) := rfl
+@[simp] theorem ge (a b : K) : @Sc.ge K (scOfField F) a b = decide (b ≤ a) := rfl
+@[simp] theorem ne (a b : K) : @Sc.ne K (scOfField F) a b = !decide (a = b) := rfl
+@[simp] theorem eps : @Sc.eps K (scOfField F) = F.eps := rfl
+@[simp] theorem minPos : @Sc.minPos K (scOfField F) = F.minPos := rfl
+@[simp] theorem cabs (z : K × K) : @Sc.cabs K (scOfField F) z = F.sqrt (z.1 * z.1 + z.2 * z.2) := rfl
+
+end ScF
